@@ -3,6 +3,7 @@ package bytecode
 import (
 	"bytes"
 	"encoding/hex"
+	"runtime"
 	"strings"
 
 	"github.com/tencent/goom/internal/arch/x86asm"
@@ -135,6 +136,12 @@ func isRelativeAdd(ins x86asm.Inst) bool {
 	return isAdd
 }
 
+// isRaceInstrumentation 判断 CALL 的目标是否为 -race 编译时插入的 runtime.race* 函数
+func isRaceInstrumentation(target uintptr) bool {
+	f := runtime.FuncForPC(target)
+	return f != nil && strings.HasPrefix(f.Name(), "runtime.race")
+}
+
 // GetInnerFunc Get the first real func location from wrapper
 // not absolutely safe
 func GetInnerFunc(mode int, start uintptr) (uintptr, error) {
@@ -159,11 +166,15 @@ func GetInnerFunc(mode int, start uintptr) (uintptr, error) {
 
 		if inst.Op.String() == CallInsName {
 			relativeAddr := DecodeRelativeAddr(&inst, code, inst.PCRelOff)
+			var target uintptr
 			if relativeAddr >= 0 {
-				return start + uintptr(curLen) + uintptr(relativeAddr) + uintptr(inst.Len), nil
+				target = start + uintptr(curLen) + uintptr(relativeAddr) + uintptr(inst.Len)
+			} else if curLen+int(relativeAddr) < 0 {
+				target = start + uintptr(curLen) - uintptr(-relativeAddr) + uintptr(inst.Len)
 			}
-			if curLen+int(relativeAddr) < 0 {
-				return start + uintptr(curLen) - uintptr(-relativeAddr) + uintptr(inst.Len), nil
+			// -race 编译时 wrapper 的第一个 CALL 是 runtime.racefuncenter 等插桩函数, 不是被包装的函数
+			if target != 0 && !isRaceInstrumentation(target) {
+				return target, nil
 			}
 		}
 
